@@ -26,6 +26,7 @@ class BuildDirs:
     #     (even though it contains two build files) and one for '/foo/b.txt'.
     #     There is no reservation for '/foo/d.txt', because an exception was
     #     raised while building it.
+    # Lock _creation_lock - The lock returned by creation_lock().
     # dict<str, str> _created_dirs_map - A map from the norm-cased filename of
     #     each directory that the current build virtually created and didn't
     #     subsequently virtually remove to the corresponding non-norm-cased
@@ -82,11 +83,24 @@ class BuildDirs:
         self._removed_dirs = set()
         self._exists_dirs = set()
         self._lock = threading.Lock()
+        self._creation_lock = threading.Lock()
 
         self._maybe_removed_dirs = set(
             [os.path.normcase(dir_) for dir_ in old_cache_dirs])
         self._removed_files = set(
             [os.path.normcase(filename) for filename in old_cache_files])
+
+    def creation_lock(self):
+        """Return the lock to hold while creating directories for a file.
+
+        That is, from determining which parent directories of a build
+        file are missing through the call to ``started_building_file``
+        (or the call to ``error_building_file``). Otherwise, two threads
+        that build files in the same new directory could each conclude
+        that the other one created it, and no one would record it. This
+        lock must be acquired before any other lock.
+        """
+        return self._creation_lock
 
     def is_removed_norm_case(self, norm_cased_dir):
         """Return whether the specified directory was removed.
@@ -161,7 +175,7 @@ class BuildDirs:
         """Handle an exception building the specified file."""
         prev_parent = os.path.normcase(filename)
         parent = os.path.dirname(prev_parent)
-        with self._lock:
+        with self._creation_lock, self._lock:
             while parent != prev_parent:
                 count = self._build_dir_counts[parent] - 1
                 if count > 0:
